@@ -10,3 +10,14 @@ SPEC = dict(
     assumptions=["ParseExpr/String() are the functions used by processor_codec.go to ship conditions",
                  "structural equality modulo ParenExpr nodes is the meaning of 'same expression tree'"],
 )
+
+# Set CLAIMED = True once the check is clean on the unchanged tree (exit 0, KNOWN-FINDING lines allowed).
+CLAIMED = False
+MANIFEST = dict(
+    level="exploration",
+    engine="enumx",
+    technique="bounded exhaustive enumeration of expression texts (grammar depth <= 3) with print/re-parse differential oracle on the real parser and printer",
+    text="Every expression text of a finite grammar (all binary operators, parenthesisations, typed literal alphabet) up to depth 3 is "
+         "parsed, printed and re-parsed by the real code; trees are compared structurally with literal types. Exhaustive within the grammar bound.",
+    note="Trusts: Go runtime; the canonical tree printer of the harness; the grammar covers only the listed atoms/operators.",
+)
